@@ -422,7 +422,7 @@ def gen_crowd(rng, fe, p_forms=0.2):
 
 
 import os
-REUSE_FULL = bool(os.environ.get('VERIF_C03_REUSE_FULL'))      # include what the findings below are about
+REUSE_FULL = True      # implicit digests / timeouts / cancellations on reused buffers too (the aliasing defects are fixed in /repo)
 
 
 def gen_reuse(rng, fe):
@@ -1266,6 +1266,7 @@ def spec_matches(spec, data, k):
 
 
 V2_ACCEPT = ('PASS', 'ALLOW_BYPASS')
+V2_LATE_AWAIT_GRACE = 100      # ms: appv2._wait_for_data, documented in its comment ("should not be considered as an error")
 
 
 def accepting(fe, verdict):
@@ -1297,7 +1298,17 @@ def spec_allowed(case, i, strict, enforce=None):
         # validator that is the first thing to happen to the Interest, within its lifetime, IS its outcome
         out = [['timeout', None]]
         first = True
+        # The current front-end keeps the deadline it computed when the Interest was expressed: an await that starts
+        # before the deadline waits until the deadline, one that starts later gets the documented 100 ms grace.  So a
+        # packet that arrives after that instant finds the Interest finished (timeout) - it cannot be its outcome.
+        # (The legacy front-end starts its clock at the first await: spec decision, judged leniently.)
+        last = None
+        if fe == 'v2' and spec.get('defer'):
+            aw = evs[pos][0] + spec['defer']
+            last = dl if aw < dl else aw + V2_LATE_AWAIT_GRACE
         for e in evs[pos + 1:]:
+            if last is not None and e[0] > last and e[1] in ('d', 'n', 'b'):
+                continue
             if e[1] == 'd' and e[2] < len(case['datas']) and spec_matches(spec, case['datas'][e[2]], e[2]):
                 d = case['datas'][e[2]]['content']
                 if first and spec.get('defer') and e[0] < dl and accepting(fe, spec['verdict']) and not spec['lat']:
